@@ -727,11 +727,37 @@ func (c *HAConfig) NormalForm(opt *NFOptions) NF {
 		if isAuthFront {
 			sort.Strings(lines)
 		}
+		// use-server rules with one and the same condition (several pods of a blue/green group) follow
+		// the order of the server slots, which is history like the slot names: sorted inside such a run
+		for i := 0; i < len(lines); {
+			j := i
+			// (rules of different groups test different values of one header or cookie: their order is
+			// immaterial; rules of one group follow the slot order: history, like the slot names)
+			for j < len(lines) && strings.HasPrefix(lines[j], "use-server ") && strings.HasPrefix(lines[i], "use-server ") {
+				j++
+			}
+			if j-i > 1 {
+				sort.Strings(lines[i:j])
+			}
+			if j == i {
+				j++
+			}
+			i = j
+		}
 		lines = canonLookups(lines)
 		sort.Strings(servers)
 		nf[id] = append(lines, servers...)
 	}
 	return nf
+}
+
+// useServerCond returns what follows the server of a normalised use-server line.
+func useServerCond(l string) string {
+	f := strings.SplitN(l, " ", 3)
+	if len(f) < 3 {
+		return ""
+	}
+	return f[2]
 }
 
 func (c *HAConfig) binID(path string) string {
